@@ -137,6 +137,7 @@ def main(run):
                     if not (w.N == 0 and e.N == 0 and fr(w.var) == 0 and fr(w.mean) == 0 and fr(e.get()) == 0):
                         run.violation("empty-stream", f"fresh trackers after reads: N={w.N},{e.N} var={w.var!r} mean={w.mean!r}", {"case": "reads before first update"})
                 rec.take()
+                reinit_at = 0
                 full_every = 1 if n <= 64 else max(1, n // 16)
                 tag = f"{kind} n={n} alpha={alpha!r}"
                 if run.evaluations == 0 or (len(run.samples) < 3 and n == 5 and kind in ("random", "fractions")):
@@ -147,6 +148,17 @@ def main(run):
                         run.violation("empty-stream", f"fresh trackers report N={w.N},{e.N} value {e.get()!r}", {"case": tag})
                     continue
                 for i, v in enumerate(vals):
+                    if rep == 0 and n >= 6 and i == n // 3 and kind in ("random", "negative", "with-zeros"):
+                        # the caller RE-INITIALISES the tracker objects in place (t.__init__(...)): from then on they are new trackers
+                        w.__init__()
+                        e.__init__(alpha)
+                        for tr_ in (w2, w3):
+                            tr_.__init__()
+                        for tr_ in (e2, e3):
+                            tr_.__init__(alpha)
+                        s1 = s2 = Fraction(0)
+                        reinit_at = i
+                        run.count("re-initialised-streams")
                     if rep == 1 and n >= 4 and i == n // 2:
                         # checkpoint: the stream continues on a deep copy / pickle round trip; the originals are fed other values from now on
                         import copy
@@ -173,10 +185,10 @@ def main(run):
                     w2.update(other[i]); w3.update(a * v + b * other[i])
                     e2.update(other[i]); e3.update(a * v + b * other[i])
                     rec.take()
-                    m = i + 1
+                    m = i + 1 - reinit_at
                     s1 += fv[i]
                     s2 += fv[i] * fv[i]
-                    if sparse_reads and m != n and rnd.random() > 0.2:
+                    if sparse_reads and i + 1 != n and rnd.random() > 0.2:
                         continue            # statistics are read at a few random times only
                     mean = s1 / m
                     var = s2 / m - mean * mean
@@ -190,16 +202,16 @@ def main(run):
                         probs.append(("welford-std", f"std {sd!r} != sqrt(var) {math.sqrt(var)!r}"))
                     if w.N != m or e.N != m:
                         probs.append(("update-count", f"N={w.N}/{e.N} after {m} updates"))
-                    if not (min(fv[:m]) <= fr(w.mean) <= max(fv[:m])):
+                    if not (min(fv[reinit_at:i + 1]) <= fr(w.mean) <= max(fv[reinit_at:i + 1])):
                         probs.append(("welford-range", "mean outside [min,max]"))
                     run.ok(5, kind="welford")
-                    if i % full_every == 0 or m == n:
+                    if i % full_every == 0 or i + 1 == n:
                         es = Fraction(0)
                         for jx in range(m):
-                            es += fa * (1 - fa) ** (m - 1 - jx) * fv[jx]
+                            es += fa * (1 - fa) ** (m - 1 - jx) * fv[reinit_at + jx]
                         if not (fr(e.get()) == es and fr(e()) == es):
                             probs.append(("smoothing-closed-form", f"smoothed {e.get()!r} != {es}"))
-                        lo, hi = min([Fraction(0)] + fv[:m]), max([Fraction(0)] + fv[:m])
+                        lo, hi = min([Fraction(0)] + fv[reinit_at:i + 1]), max([Fraction(0)] + fv[reinit_at:i + 1])
                         if not (lo <= fr(e.get()) <= hi):
                             probs.append(("smoothing-hull", "smoothed value outside hull of {0} and inputs"))
                         if not (fr(w3.mean) == fr(a) * fr(w.mean) + fr(b) * fr(w2.mean)):
